@@ -294,6 +294,16 @@ def rule_SO(run: Run) -> RuleResult:
     res.add("labrea.conditional.CaseWhen._evaluate:first condition that holds selects its own result", ok_first, f, ln, d_first or "result of the same tuple at the first success", nec)
     res.add("labrea.conditional.CaseWhen._evaluate:default only when no condition held", ok_def, f, ln, d_def or "after the loop", nec)
     res.add("labrea.conditional.CaseWhen._evaluate:CaseWhenError when nothing applies", ok_err, f, ln, d_err or "raise after the loop without default", nec)
+    # a predicate answers in Python's sense of truth (a match object, a count, a numpy bool …): the test on its answer is the answer
+    # itself (possibly negated or passed through bool()), never a comparison with True/False that only the singletons pass
+    TRUTH_FORMS = (COND, f"unop:Not({COND})", f"call:bool({COND})", f"call:builtins.bool({COND})", f"call:operator.truth({COND})",
+                   f"unop:Not(call:bool({COND}))", f"unop:Not(unop:Not({COND}))")
+    odd = sorted({c[0] for p in ps for c in p.conds if COND in c[2] and c[2] not in TRUTH_FORMS})
+    res.add("labrea.conditional.CaseWhen._evaluate:a condition's answer counts by its truth", not odd, f, ln,
+            f"`{odd[0][:80]}` compares the predicate's answer instead of taking its truth: a truthy answer other than the compared constant "
+            "(re.Match, a length, numpy.bool_) no longer selects its case" if odd else "the answer itself is what the branch tests",
+            "case-when takes the first matching case (C05); a case whose predicate answered truthily but is passed over hands the evaluation to a later "
+            "case or the default, whose body then runs although it was not selected (C06)")
     # every operation of CaseWhen goes through dispatch.bind(<the case selection under the same options>)
     okb = True
     n_b = 0
@@ -1039,6 +1049,12 @@ KW_EXEMPT = {("labrea.template.Template.__init__", "template"): "the template te
                                                                    "called `template` cannot be given, as documented"}
 
 
+def _bare_ok(arg: ast.expr) -> Optional[str]:
+    """A callable the public API documents as taking no argument (Option(default_factory=…)): recognised by what it is called."""
+    name = arg.id if isinstance(arg, ast.Name) else arg.attr if isinstance(arg, ast.Attribute) else ""
+    return "a factory is documented to be called without arguments" if name.endswith("factory") else None
+
+
 def _only_literal_keywords(run: Run, name: str) -> bool:
     """Every use of the name in the repository is a call that passes no ``**mapping`` (and there is at least one)."""
     calls = 0
@@ -1085,6 +1101,62 @@ def rule_KW(run: Run) -> RuleResult:
     res.count("collecting_functions", n)
     if n < 8:
         raise AnalysisError(f"R-KW: only {n} functions collecting keyword arguments found")
+    # -- a function applied by the library gets its arguments from its signature: the classes that apply a function to evaluated
+    # arguments offer ``lift`` for that (the Evaluatable defaults of the parameters become the arguments).  Building such an object
+    # directly around a function and giving it no argument at all applies the function bare — right only for a callable that is
+    # documented to take none
+    liftable = [c for c in run.repo.classes.values() if not c.module.name.startswith("labrea.mypy") and "lift" in c.methods
+                and any(ast.unparse(d) == "classmethod" for d in c.methods["lift"].decorator_list)]
+    if len(liftable) < 2:
+        raise AnalysisError(f"R-KW: only {len(liftable)} classes with a lift() constructor found (FunctionApplication, PartialApplication expected)")
+    nec2 = ("a plain function handed to the library (a dataset definition, an implementation member, a pipeline step) reads its inputs through "
+            "the Evaluatable defaults of its parameters; applied without them the body receives the raw Option objects, and validate/keys see "
+            "no argument at all: they pass where evaluate fails (C10) and the options read are not reported (C13)")
+    n_direct = 0
+    for m, cls, fn, q in iter_functions(run.repo):
+        if m.name.startswith("labrea.mypy"):
+            continue
+        for c in astu.calls_in(fn):
+            f0 = c.func.value if isinstance(c.func, ast.Subscript) else c.func
+            if not isinstance(f0, (ast.Name, ast.Attribute)):
+                continue
+            tgt = run.repo.resolve_class(m, f0)
+            if tgt is None and isinstance(f0, ast.Name) and f0.id == "cls" and cls in liftable:
+                tgt = cls
+            if tgt not in liftable:
+                continue
+            n_direct += 1
+            bare = len(c.args) == 1 and not isinstance(c.args[0], ast.Starred) and not c.keywords
+            arg = ast.unparse(c.args[0]) if c.args else ""
+            why_ok = _bare_ok(c.args[0]) if c.args else None
+            res.add(f"{q}:{tgt.name}({arg[:30]}…) built directly is given arguments (a plain function goes through .lift)", (not bare) or why_ok is not None,
+                    m.relpath, c.lineno, (f"bare, accepted: {why_ok}" if bare and why_ok else "arguments are passed on") if (not bare or why_ok) else
+                    f"`{ast.unparse(c)[:70]}` applies `{arg}` with no argument: the Evaluatable defaults of its parameters are never evaluated, validated or keyed "
+                    f"({tgt.name}.lift builds the arguments from the signature)", nec2)
+    if n_direct < 3:
+        raise AnalysisError(f"R-KW: only {n_direct} direct constructions of liftable applications found")
+    res.count("direct_constructions", n_direct)
+    # -- and lift asks the right question of the signature: a signature has at most one parameter of each variadic kind, so "does it
+    # take **kwargs / *args" is any(); all() over the parameters is true only for the signature that consists of that one parameter
+    n_q = 0
+    for m, cls, fn, q in iter_functions(run.repo):
+        if m.name.startswith("labrea.mypy"):
+            continue
+        for c in astu.calls_in(fn):
+            if not (isinstance(c.func, ast.Name) and c.func.id in ("any", "all") and len(c.args) == 1 and isinstance(c.args[0], (ast.GeneratorExp, ast.ListComp, ast.SetComp))):
+                continue
+            elt = c.args[0].elt
+            kinds = [x for x in ast.walk(elt) if isinstance(x, ast.Compare) and len(x.ops) == 1 and isinstance(x.ops[0], (ast.Eq, ast.Is))
+                     and any(isinstance(y, ast.Attribute) and y.attr in ("VAR_KEYWORD", "VAR_POSITIONAL") for y in [x.left] + x.comparators)]
+            if not kinds or not (isinstance(elt, ast.Compare) and elt is kinds[0]):
+                continue
+            n_q += 1
+            res.add(f"{q}:a variadic parameter is looked for with any()", c.func.id == "any", m.relpath, c.lineno,
+                    "any(kind is variadic)" if c.func.id == "any" else f"`{ast.unparse(c)[:80]}`: all() holds only when the variadic parameter is the only one — "
+                    "a definition with named parameters and **kwargs is taken for one without, and the extra arguments given to it are dropped", nec)
+    res.count("variadic_questions", n_q)
+    if n_q < 1:
+        res.add("labrea:no any()/all() question about variadic parameters", True, "", 0, "lift does not ask the signature for variadic parameters in that form", nec, trivial=True)
     return res
 
 
